@@ -44,7 +44,8 @@ def gen_program(rng, ndex=None, shared_strings=True):
                 continue
             used.add((mn, ret, params))
             methods.append({"name": mn, "ret": ret, "params": params, "code": []})
-        classes.append({"name": cn, "fields": fields, "methods": methods})
+        # an interface or annotation type can hold code too (static and default methods, <clinit>)
+        classes.append({"name": cn, "fields": fields, "methods": methods, "access": rng.choice((0x1, 0x1, 0x1, 0x11, 0x601, 0x2601, 0x401))})
     allfields = [(c["name"], f[0], f[1]) for c in classes for f in c["fields"]]
     allmeths = [(c["name"], m["name"], m["ret"], m["params"]) for c in classes for m in c["methods"]]
     for c in classes:
@@ -124,7 +125,7 @@ def build_dexes(prog):
     for part in prog["dex"]:
         b = DexBuilder()
         for c in part:
-            k = b.add_class(c["name"])
+            k = b.add_class(c["name"], access=c.get("access", 1))
             for fn, ft in c["fields"]:
                 k.add_field(fn, ft, access=1, static=False)
             for m in c["methods"]:
